@@ -77,6 +77,20 @@ package jid
 //@   ensures[C11] result1 == nil ==> 1 <= result0.domainlen && result0.domainlen <= 1023 && result0.locallen <= 1023 && len(result0.data) - result0.locallen - result0.domainlen <= 1023
 //@   ensures[C11] result1 == nil ==> forall k int :: 0 <= k && k < result0.locallen ==> !forbidLocal(result0.data[k])
 
+// Replacing one part checks the limits of the part that was replaced (the
+// new one) and keeps the other parts: building from parts and replacing a
+// part agree on what is accepted.
+//@ func (JID).WithResource
+//@   ensures[C11] result1 == nil ==> len(result0.data) - result0.locallen - result0.domainlen <= 1023
+//@   ensures[C11] result1 == nil ==> result0.locallen == j.locallen && result0.domainlen == j.domainlen
+//@   callsite (*golang.org/x/text/secure/precis.Profile).Append#1
+//@     assert[C11] arg0 == precis.OpaqueString
+//@ func (JID).WithLocal
+//@   ensures[C11] result1 == nil ==> result0.locallen <= 1023 && result0.domainlen == j.domainlen
+//@   ensures[C11] result1 == nil ==> forall k int :: 0 <= k && k < result0.locallen ==> !forbidLocal(result0.data[k])
+//@   callsite (*golang.org/x/text/secure/precis.Profile).Append#1
+//@     assert[C11] arg0 == precis.UsernameCaseMapped
+
 // Accessors agree with one another.
 //@ func (JID).Bare
 //@   ensures[C11,C08] result.locallen == j.locallen && result.domainlen == j.domainlen && len(result.data) == j.locallen + j.domainlen
